@@ -1,6 +1,6 @@
 CONSTANTS
-  Threads = {"main", "w0", "w1"}
-  MCcfg <- S_gen2
+  Threads = {"main", "w0", "w1", "w2"}
+  MCcfg <- S_clean_big
 INIT Init
 NEXT Next
 CHECK_DEADLOCK TRUE
